@@ -8,40 +8,37 @@ Open Scope N_scope.
 Lemma filter_tainted_nil : forall items, filter_tainted [] items = items.
 Proof. induction items as [|l r IH]; [reflexivity|]. unfold filter_tainted in *. simpl. f_equal. exact IH. Qed.
 
-Lemma tainted_indices_inert : forall vre cs f res, vre = false \/ cs = [] -> tainted_indices vre cs f res = [].
+Lemma tainted_indices_inert : forall fixed vre cs f res, vre = false \/ cs = [] -> tainted_indices_gen fixed vre cs f res = [].
 Proof.
-  intros vre cs f res [-> | ->]; unfold tainted_indices; simpl; [reflexivity|].
+  intros fixed vre cs f res [-> | ->]; unfold tainted_indices_gen; simpl; [reflexivity|].
   destruct (negb vre || rs_err res); reflexivity.
 Qed.
 
-Lemma merge_result_t_inert : forall vre cs f res items batch s, vre = false \/ cs = [] ->
-  merge_result_t vre cs f res items batch (s, []) = (merge_result f res items batch s, []).
+Lemma merge_result_t_inert : forall (tind : tindices) cs f res items batch s, tind cs f res = [] ->
+  merge_result_t tind cs f res items batch (s, []) = (merge_result f res items batch s, []).
 Proof.
-  intros vre cs f res items batch s H. unfold merge_result_t. rewrite (tainted_indices_inert _ _ f res H). simpl.
+  intros tind cs f res items batch s H. unfold merge_result_t. rewrite H. simpl.
   destruct (ls_hard _); reflexivity.
 Qed.
 
 Section Off.
   Variable St : Type.
   Variable exchange : St -> request -> response * St.
-  Variable vre : bool.
+  Variable tind : tindices.
   Variable coords : N -> list (bytes * bytes).
-  Hypothesis Hoff : vre = false \/ forall id, coords id = [].
-
-  Lemma Hoff_at : forall id, vre = false \/ coords id = [].
-  Proof. intros id. destruct Hoff as [H|H]; [left; exact H|right; apply H]. Qed.
+  Hypothesis Hoff : forall id f res, tind (coords id) f res = [].
 
   Lemma run_fetch_t_off : forall f s x,
-    run_fetch_t St exchange vre coords f ((s, []), x) = ((fst (run_fetch St exchange f (s, x)), []), snd (run_fetch St exchange f (s, x))).
+    run_fetch_t St exchange tind coords f ((s, []), x) = ((fst (run_fetch St exchange f (s, x)), []), snd (run_fetch St exchange f (s, x))).
   Proof.
     intros f s x. unfold run_fetch_t, run_fetch. destruct (should_skip f s); [reflexivity|].
     rewrite filter_tainted_nil.
     destruct (prepare f (ls_data s) (select_items (ls_data s) (f_path f))) as [d|d rq batch]; [reflexivity|].
-    destruct (exchange x rq) as [res x']. rewrite (merge_result_t_inert _ _ _ _ _ _ _ (Hoff_at (f_id f))). reflexivity.
+    destruct (exchange x rq) as [res x']. rewrite (merge_result_t_inert _ _ _ _ _ _ _ (Hoff (f_id f) f res)). reflexivity.
   Qed.
 
   Lemma run_tree_t_off : forall t s x,
-    run_tree_t St exchange vre coords t ((s, []), x) = ((fst (run_tree St exchange t (s, x)), []), snd (run_tree St exchange t (s, x))).
+    run_tree_t St exchange tind coords t ((s, []), x) = ((fst (run_tree St exchange t (s, x)), []), snd (run_tree St exchange t (s, x))).
   Proof.
     fix IH 1. intros t; destruct t as [f|l|l]; intros s x.
     - apply run_fetch_t_off.
@@ -53,40 +50,49 @@ Section Off.
   Qed.
 
   Lemma load_t_off : forall t x,
-    load_t St exchange vre coords t x = ((fst (load St exchange t x), []), snd (load St exchange t x)).
+    load_t St exchange tind coords t x = ((fst (load St exchange t x), []), snd (load St exchange t x)).
   Proof. intros t x. unfold load_t, load. apply run_tree_t_off. Qed.
 End Off.
 
-(* ------------------------------------------------------------------ taints only grow *)
-Lemma merge_result_t_incl : forall vre cs f res items batch s T l,
-  In l T -> In l (snd (merge_result_t vre cs f res items batch (s, T))).
+Lemma load_t_off' : forall (St : Type) (exchange : St -> request -> response * St) (vre : bool) (coords : N -> list (bytes * bytes)),
+  vre = false \/ (forall id, coords id = []) ->
+  forall (t : ftree) (x : St),
+  load_t St exchange (tainted_indices vre) coords t x = ((fst (load St exchange t x), []), snd (load St exchange t x)).
 Proof.
-  intros vre cs f res items batch s T l H. unfold merge_result_t. cbn [snd].
+  intros St exchange vre coords H t x. apply load_t_off. intros id f res. apply tainted_indices_inert.
+  destruct H as [H|H]; [left; exact H|right; apply H].
+Qed.
+
+(* ------------------------------------------------------------------ taints only grow *)
+Lemma merge_result_t_incl : forall (tind : tindices) cs f res items batch s T l,
+  In l T -> In l (snd (merge_result_t tind cs f res items batch (s, T))).
+Proof.
+  intros tind cs f res items batch s T l H. unfold merge_result_t. cbn [snd].
   destruct (ls_hard _); [exact H|]. apply in_or_app. left. exact H.
 Qed.
 
 Section Grow.
   Variable St : Type.
   Variable exchange : St -> request -> response * St.
-  Variable vre : bool.
+  Variable tind : tindices.
   Variable coords : N -> list (bytes * bytes).
 
-  Lemma run_fetch_t_grow : forall f s T x l, In l T -> In l (snd (fst (run_fetch_t St exchange vre coords f ((s, T), x)))).
+  Lemma run_fetch_t_grow : forall f s T x l, In l T -> In l (snd (fst (run_fetch_t St exchange tind coords f ((s, T), x)))).
   Proof.
     intros f s T x l H. unfold run_fetch_t. destruct (should_skip f s); [exact H|].
     destruct (prepare f (ls_data s) _) as [d|d rq batch]; [exact H|].
     destruct (exchange x rq) as [res x']. cbn [fst]. apply merge_result_t_incl. exact H.
   Qed.
 
-  Lemma run_tree_t_grow : forall t s T x l, In l T -> In l (snd (fst (run_tree_t St exchange vre coords t ((s, T), x)))).
+  Lemma run_tree_t_grow : forall t s T x l, In l T -> In l (snd (fst (run_tree_t St exchange tind coords t ((s, T), x)))).
   Proof.
     fix IH 1. intros t; destruct t as [f|ts|ts]; intros s T x l H.
     - apply run_fetch_t_grow. exact H.
     - simpl. revert s T x H. induction ts as [|t r IHl]; intros s T x H; [exact H|].
-      specialize (IH t s T x l H). destruct (run_tree_t St exchange vre coords t (s, T, x)) as [[s1 T1] y1]. cbn [fst snd] in *.
+      specialize (IH t s T x l H). destruct (run_tree_t St exchange tind coords t (s, T, x)) as [[s1 T1] y1]. cbn [fst snd] in *.
       destruct (ls_hard s1); [exact IH|]. apply IHl. exact IH.
     - simpl. revert s T x H. induction ts as [|t r IHl]; intros s T x H; [exact H|].
-      specialize (IH t s T x l H). destruct (run_tree_t St exchange vre coords t (s, T, x)) as [[s1 T1] y1]. cbn [fst snd] in *.
+      specialize (IH t s T x l H). destruct (run_tree_t St exchange tind coords t (s, T, x)) as [[s1 T1] y1]. cbn [fst snd] in *.
       apply IHl. exact IH.
   Qed.
 End Grow.
@@ -264,20 +270,20 @@ Proof.
   repeat split; try discriminate. intros ->. simpl in E. inversion E.
 Qed.
 
-Lemma taint_exact_thm : forall vre cs f res items data d' rq bl s T,
+Lemma taint_exact_thm : forall (tind : tindices) cs f res items data d' rq bl s T,
   f_kind f = FBatch -> prepare f data items = PLoad d' rq (Some bl) ->
-  let st' := merge_result_t vre cs f res items (Some bl) (s, T) in
+  let st' := merge_result_t tind cs f res items (Some bl) (s, T) in
   forall l, In l (snd st') <->
     In l T \/ (ls_hard (fst st') = false /\ batch_merged f res (length (rq_reps rq)) /\
-               exists k b, nth_error (rq_reps rq) k = Some b /\ In (N.of_nat k) (tainted_indices vre cs f res) /\
+               exists k b, nth_error (rq_reps rq) k = Some b /\ In (N.of_nat k) (tind cs f res) /\
                            in_buckets (snd (batch_prepare (f_rep f) items data [])) b l).
 Proof.
-  intros vre cs f res items data d' rq bl s T Hk Hp. cbv zeta. intros l.
+  intros tind cs f res items data d' rq bl s T Hk Hp. cbv zeta. intros l.
   destruct (prepare_batch_inv _ _ _ _ _ _ Hk Hp) as (Hreps & Hbl & Hne & Hitems). cbv zeta in *.
   set (bs := snd (batch_prepare (f_rep f) items data [])) in *.
   assert (Hnd : NoDup (map fst bs)) by (apply batch_prepare_nodup; constructor).
   unfold merge_result_t. cbn [fst snd].
-  set (ti := tainted_indices vre cs f res).
+  set (ti := tind cs f res).
   set (s1 := match ti with [] => s | _ => add_error s LE_DEPS f end).
   destruct (ls_hard (merge_result f res items (Some bl) s1)) eqn:Eh.
   { split; [intros H; left; exact H|]. intros [H|(Hc & _)]; [exact H|discriminate]. }
@@ -740,11 +746,11 @@ Qed.
 Section NotSent.
   Variable St : Type.
   Variable exchange : St -> request -> response * St.
-  Variable vre : bool.
+  Variable tind : tindices.
   Variable coords : N -> list (bytes * bytes).
 
   Lemma run_fetch_t_reqs : forall f s T x rq,
-    In rq (ls_reqs (fst (fst (run_fetch_t St exchange vre coords f ((s, T), x))))) ->
+    In rq (ls_reqs (fst (fst (run_fetch_t St exchange tind coords f ((s, T), x))))) ->
     In rq (ls_reqs s) \/
     exists d' batch, prepare f (ls_data s) (filter_tainted T (select_items (ls_data s) (f_path f))) = PLoad d' rq batch.
   Proof.
@@ -752,7 +758,7 @@ Section NotSent.
     destruct (prepare f (ls_data s) (filter_tainted T (select_items (ls_data s) (f_path f)))) as [d|d rq' batch] eqn:E; [left; exact H|].
     destruct (exchange x rq') as [res x']. unfold merge_result_t in H. cbn [fst] in H. rewrite merge_result_reqs in H.
     assert (H' : In rq (ls_reqs s ++ [rq'])).
-    { destruct (tainted_indices vre (coords (f_id f)) f res); destruct (rs_err res); exact H. }
+    { destruct (tind (coords (f_id f)) f res); destruct (rs_err res); exact H. }
     apply in_app_or in H' as [H'|[<-|[]]]; [left; exact H'|right; exists d, batch; reflexivity].
   Qed.
 
@@ -761,7 +767,7 @@ Section NotSent.
     (forall l, In l items -> In l (select_items (ls_data s) (f_path f)) /\ is_tainted T l = false) /\
     (forall l t, In t T -> rpath_prefix l t = true -> ~ In l items) /\
     (forall b l, in_buckets (snd (batch_prepare (f_rep f) items (ls_data s) [])) b l -> In l items) /\
-    (forall x rq, In rq (ls_reqs (fst (fst (run_fetch_t St exchange vre coords f ((s, T), x))))) -> ~ In rq (ls_reqs s) ->
+    (forall x rq, In rq (ls_reqs (fst (fst (run_fetch_t St exchange tind coords f ((s, T), x))))) -> ~ In rq (ls_reqs s) ->
        exists d' batch, prepare f (ls_data s) items = PLoad d' rq batch).
   Proof.
     intros f s T. cbv zeta. split; [|split; [|split]].
